@@ -37,6 +37,13 @@ def materialise(root, ctx):
         with open(os.path.join(di, "entry_points.txt"), "w") as fh:
             fh.write("[pytest11]\ntp = tp.plugin\n")
         open(os.path.join(sp, "tp", "__init__.py"), "w").close()
+    if "tpi" in ctx.files:
+        sp = os.path.join(root, "R/.venv/lib/python3.11/site-packages")
+        di = os.path.join(sp, "tpi-1.0.dist-info")
+        os.makedirs(di, exist_ok=True)
+        with open(os.path.join(di, "entry_points.txt"), "w") as fh:
+            fh.write("[pytest11]\ntpi = tpi.plugin\n")
+        open(os.path.join(sp, "tpi", "__init__.py"), "w").close()
     os.makedirs(os.path.join(root, "R"), exist_ok=True)
 
 
